@@ -36,7 +36,7 @@ SAN = ["-fsanitize=address,undefined", "-fno-sanitize-recover=undefined"]
 
 E1_CFGS = ["chk_vec", "fast_vec", "nohash_vec", "map", "chk_vec_ind",
            "fast_vec_ind", "nohash_vec_ind", "bc_err", "deferred_chk",
-           "deferred_nohash", "proj_chk", "proj_map"]
+           "deferred_nohash", "proj_chk", "proj_map", "proj_chk_ind"]
 
 
 def engines():
@@ -50,6 +50,18 @@ def engines():
                  "deps": ["e1/*.hpp", "common/*.hpp"]}
                 for n in ["main", "props_core", "props_meta", "props_hist", "props_rtti", "props_gen"]],
         "link": SAN + ["-lrapidcheck"],
+    }
+    FZ = ["-fsanitize=fuzzer-no-link,address,undefined",
+          "-fno-sanitize-recover=undefined"]
+    e["e1f"] = {
+        "tus": [{"src": "e1/cfg.cpp", "name": "fz_cfg_" + c,
+                 "flags": FZ + ["-DCFG_" + c],
+                 "deps": e1_hdr + ["e1/cfgs.inc"]}
+                for c in ["chk_vec", "map", "nohash_vec", "fast_vec"]] +
+               [{"src": "e1/%s.cpp" % n, "name": "fz_" + n, "flags": FZ,
+                 "deps": ["e1/*.hpp", "common/*.hpp"]}
+                for n in ["fuzz_main", "props_core", "props_meta"]],
+        "link": ["-fsanitize=fuzzer,address,undefined"] + ["-lrapidcheck"],
     }
     e2_pols = ["dbg", "rel", "dbg_ind", "rel_ind", "rel_map"]
     e2_deps = ["e2/*.hpp", "e1/spec.hpp", "common/*.hpp"]
